@@ -94,7 +94,9 @@ class Sim:
         self.switch_sites = []
         self.stack_names = {}
         self.full_digest = bool(spec.get('full_digest'))
-        self.focus_key = None
+        self.focus_faults = {(f[0], f[1]): f[2] for f in spec.get('focus_faults', [])}
+        self.client_focus_hits = {}
+        self.focus_keys = []
         self.instr_key = tuple(spec['instr_fn']) if spec.get('instr_fn') else None
         self.instr_codes = []
         self.focus_hits = 0
@@ -126,7 +128,8 @@ class Sim:
             self.q = st['q']
         elif self.kind == 'focus':
             self.p = st.get('p', 0.5)
-            self.focus_key = tuple(st['fn']) if st.get('fn') else None
+            self.focus_keys = [tuple(st['fn'])] if st.get('fn') else []
+            self.focus_keys += [tuple(f) for f in st.get('fns', [])]
         for c, oi, ev in spec.get('gcs_at', []):
             if 0 <= c < len(clients):
                 clients[c].gcs.setdefault(oi, []).append(ev)
@@ -149,9 +152,9 @@ class Sim:
         v = 0
         if ok:
             v = 1 | (2 if fn.startswith(self.fault_prefixes) else 0) | ((zlib.crc32(fn.encode()) & 0xFFFF) << 3)
-            fk = self.focus_key
-            if fk is not None and code.co_name == fk[1] and code.co_firstlineno == fk[2] and fn.endswith(fk[0]):
-                v |= 4
+            for fk in self.focus_keys:
+                if code.co_name == fk[1] and code.co_firstlineno == fk[2] and fn.endswith(fk[0]):
+                    v |= 4
             ik = self.instr_key
             if ik is not None and code.co_name == ik[1] and code.co_firstlineno == ik[2] and fn.endswith(ik[0]):
                 # bytecode-level pre-emption points inside this one function (local INSTRUCTION events), line level elsewhere
@@ -261,6 +264,13 @@ class Sim:
         self.digest = ((self.digest * 1000003) ^ ((sc >> 3) * 131 + pos * 7 + c.cid + ev * 31)) & 0xFFFFFFFFFFFF
         try:
             # --- faults
+            if sc & 4 and self.focus_faults:
+                # fault placed *inside* the focus function: at this client's n-th event in it
+                hits = self.client_focus_hits.get(c.cid, 0) + 1
+                self.client_focus_hits[c.cid] = hits
+                ff = self.focus_faults.get((c.cid, hits))
+                if ff is not None and c.pending_fault is None:
+                    c.pending_fault = ff
             kind = c.pending_fault
             fl = c.faults.get(c.op_i)
             if fl and fl[0][0] == ev:
